@@ -7,13 +7,13 @@
 
   * `image`: the documented result (C13: `rename(Q qvars. trans ∧ source)`) for ANY order, hence
     whatever sifting does.
-  * `preimage`: always returns normally, frame as for every decorated operation; the documented
-    result (`Q qvars. trans ∧ rename(target)`) PROVIDED the partners of the renaming are
-    neighbours in the order in which the manager is left (sifting moves single variables and may
-    separate them: then the code's own precondition "primed and unprimed variables are
-    neighbours" is false in the order the retry runs on).
+  * `preimage`: the documented result (`Q qvars. trans ∧ rename(target)`) for ANY order as well:
+    when the partners of the renaming are neighbours the body runs the recursion `_image`,
+    otherwise (sifting moves single variables and may separate them: finding F4d) it renames the
+    target, conjoins and quantifies (`preimageFallback`, DDProofs.DynPreimage).
 -/
 import DDProofs.DynImage
+import DDProofs.DynPreimage
 import DDProofs.DynOps2
 import DDProofs.ImageWrap
 open Std
@@ -491,13 +491,22 @@ theorem image_transparent (ext : Nat → Nat) (hS : SiftContract ext) (m : Mgr) 
 
 /-! ### `preimage` -/
 
-/-- the body `_preimage_of` on arguments that pass its check is the call of `_image` -/
+theorem renameNeighbors_lvls (pairs : List (Int × Int)) :
+    renameNeighbors (pairs.map fun p => (Key.lvl p.1, Key.lvl p.2)) = true ↔
+      ∀ p, p ∈ pairs → (p.1 - p.2).natAbs = 1 := by
+  unfold renameNeighbors
+  rw [intPairs_map_lvl, List.all_eq_true]
+  simp only [beq_iff_eq]
+
+/-- the body `_preimage_of` on arguments that pass its check, partners neighbours: the call of
+`_image` -/
 theorem preimageBody_eq_imageF (m : Mgr) (hV : VarsBij m.tbl) (trans target : Int)
     (rn : List (Key × Key)) (qvars : List Key)
     (fa : Bool) (q : List Nat) (hq : mapToLevelE m.tbl qvars = .ok q) (pairs : List (Int × Int))
     (hres : resolveRename m.tbl rn = pairs.map fun p => (Key.lvl p.1, Key.lvl p.2))
     (hne : pairs ≠ [] → 0 < m.nvars)
-    (hov : ∀ p p', p ∈ pairs → p' ∈ pairs → p.2 ≠ p'.1) :
+    (hov : ∀ p p', p ∈ pairs → p' ∈ pairs → p.2 ≠ p'.1)
+    (hadj : ∀ p, p ∈ pairs → (p.1 - p.2).natAbs = 1) :
     preimageBody trans target rn qvars fa m =
       match imageF none (some pairs) [] [] q fa (2 * m.nvars + 4) trans target {} m with
       | (.error e, m2) => (.error (if e = .fuel then .runtime else e), m2)
@@ -506,15 +515,37 @@ theorem preimageBody_eq_imageF (m : Mgr) (hV : VarsBij m.tbl) (trans target : In
     (renameOverlap_lvls pairs).mpr hov
   have hav := assertValidRename_ok m hV (pairs.map fun p => (Key.lvl p.1, Key.lvl p.2))
     (fun h => hne (fun hp => h (by rw [hp]; rfl))) hov'
+  have hnb := (renameNeighbors_lvls pairs).mpr hadj
   unfold preimageBody
-  simp only [hq, hres, hav, intPairs_map_lvl, badKeys_map_lvl]
+  simp only [hq, hres, hav, hnb, if_true, intPairs_map_lvl, badKeys_map_lvl]
   generalize imageF none (some pairs) [] [] q fa (2 * m.nvars + 4) trans target {} m = res
   rcases res with ⟨_ | ⟨_, _⟩, _⟩ <;> rfl
 
-/-- what `preimage` asks of its arguments, as far as it can be said by name: declared names,
-pairwise distinct keys, no key is a value, no two keys with the same value, the target
-independent of every value.  (That the partners are neighbours is a property of the ORDER: see
-`AdjN`.) -/
+/-- the body `_preimage_of` on arguments that pass its check, some partners NOT neighbours:
+rename, conjoin, quantify -/
+theorem preimageBody_eq_fallback (m : Mgr) (hV : VarsBij m.tbl) (trans target : Int)
+    (rn : List (Key × Key)) (qvars : List Key)
+    (fa : Bool) (q : List Nat) (hq : mapToLevelE m.tbl qvars = .ok q) (pairs : List (Int × Int))
+    (hres : resolveRename m.tbl rn = pairs.map fun p => (Key.lvl p.1, Key.lvl p.2))
+    (hne : pairs ≠ [] → 0 < m.nvars)
+    (hov : ∀ p p', p ∈ pairs → p' ∈ pairs → p.2 ≠ p'.1)
+    (hadj : ¬ ∀ p, p ∈ pairs → (p.1 - p.2).natAbs = 1) :
+    preimageBody trans target rn qvars fa m =
+      preimageFallback trans target (pairs.map fun p => (Key.lvl p.1, Key.lvl p.2)) q fa m := by
+  have hov' : renameOverlap (pairs.map fun p => (Key.lvl p.1, Key.lvl p.2)) = false :=
+    (renameOverlap_lvls pairs).mpr hov
+  have hav := assertValidRename_ok m hV (pairs.map fun p => (Key.lvl p.1, Key.lvl p.2))
+    (fun h => hne (fun hp => h (by rw [hp]; rfl))) hov'
+  have hnb : renameNeighbors (pairs.map fun p => (Key.lvl p.1, Key.lvl p.2)) = false := by
+    rw [← Bool.not_eq_true, renameNeighbors_lvls]
+    exact hadj
+  unfold preimageBody
+  simp only [hq, hres, hav, hnb, Bool.false_eq_true, if_false]
+
+/-- what `preimage` asks of its arguments by name: declared names, pairwise distinct keys, no
+key is a value, no two keys with the same value, the target independent of every value.  Nothing
+is asked of the ORDER: when some partners are not neighbours (`AdjN` false) the body renames,
+conjoins and quantifies instead of running `_image`. -/
 structure PreimagePreN (target : Int) (l : List (String × String)) (qs : List String) (t : Tbl) :
     Prop where
   keys : (l.map (·.1)).Nodup
@@ -528,17 +559,17 @@ structure PreimagePreN (target : Int) (l : List (String × String)) (qs : List S
 def AdjN (t : Tbl) (l : List (String × String)) : Prop :=
   ∀ p ∈ l, ((lvlOf t p.1 : Int) - (lvlOf t p.2 : Int)).natAbs = 1
 
-/-- result of `preimage(trans, target, rename, qvars, forall)`, by name: a reference of the
-manager; and, PROVIDED the partners are neighbours in the order the manager is left in, of
+/-- documented result of `preimage(trans, target, rename, qvars, forall)`, by name:
 `Q qvars. trans ∧ rename(target)` (the target read with every variable at its partner) -/
 def PreimageDoc (fa : Bool) (qs : List String) (l : List (String × String)) (trans target : Int)
     (t : Tbl) (r : Int) (t' : Tbl) : Prop :=
-  t'.Mem r ∧ (AdjN t' l → ∀ σ, denN t' r σ = true ↔
-    qsemN fa qs (fun τ => denN t trans τ && denN t target (fun s => τ (renN l s))) σ)
+  t'.Mem r ∧ ∀ σ, denN t' r σ = true ↔
+    qsemN fa qs (fun τ => denN t trans τ && denN t target (fun s => τ (renN l s))) σ
 
-/-- body of `preimage` on declared names, inside a context: a reference (the documented one when
-the partners are neighbours in this order), or abort — for ANY order -/
-theorem preimageBody_out (m0 : Mgr) (hI0 : Inv m0) (hq : Quiet m0) (hO : OrderOK m0.tbl)
+/-- body of `preimage` on declared names, inside a context, ANY order (partners neighbours: the
+recursion `_image`; otherwise rename, conjoin, quantify): the documented result by name, or
+abort having only added nodes -/
+theorem preimageBody_out (m0 : Mgr) (hI0 : Inv m0) (hc : m0.ctx = true) (hO : OrderOK m0.tbl)
     (trans target : Int) (hu : m0.tbl.Mem trans) (hv : m0.tbl.Mem target) (fa : Bool)
     (l : List (String × String)) (qs : List String) (hpre : PreimagePreN target l qs m0.tbl) :
     Outcome m0 (fun r m1 => PreimageDoc fa qs l trans target m0.tbl r m1.tbl)
@@ -546,6 +577,7 @@ theorem preimageBody_out (m0 : Mgr) (hI0 : Inv m0) (hq : Quiet m0) (hO : OrderOK
         fa m0) := by
   have hW := hI0.wf.toWF
   have hV := hO.varsBij
+  have hq : Quiet m0 := Or.inl hc
   have hnv : m0.nvars = m0.tbl.nvars := rfl
   generalize hpairs : lvlPairs m0.tbl l = pairs
   have hmem : ∀ x, x ∈ pairs → ∃ p, p ∈ l ∧ x = ((lvlOf m0.tbl p.1 : Int), (lvlOf m0.tbl p.2 : Int)) := by
@@ -560,74 +592,23 @@ theorem preimageBody_out (m0 : Mgr) (hI0 : Inv m0) (hq : Quiet m0) (hO : OrderOK
     have h2 := hO.lvlOf_lt (hpre.decl p hp).2
     simp only
     omega
-  rw [preimageBody_eq_imageF m0 hV trans target _ _ fa (qs.map (lvlOf m0.tbl))
-    (mapToLevelE_names m0.tbl qs hpre.qdecl) pairs
-    (by rw [← hpairs]; exact resolveRename_lvlPairs hO l hpre.keys hpre.decl)
-    (by
-      intro hne
-      cases hp : pairs with
-      | nil => exact absurd hp hne
-      | cons x _ =>
-        have h := hlv x (by rw [hp]; exact List.mem_cons_self)
-        omega)
-    (by
-      intro x x' hx hx' he
-      obtain ⟨p, hp, rfl⟩ := hmem x hx
-      obtain ⟨p', hp', rfl⟩ := hmem x' hx'
-      simp only at he
-      exact hpre.noOverlap p p' hp hp'
-        (lvlOf_inj hO (hpre.decl p hp).2 (hpre.decl p' hp').1 (by omega)))]
-  have hterm : (pairs.lookup (m0.nvars : Int)).getD (m0.nvars : Int) = (m0.nvars : Int) := by
-    cases hl : pairs.lookup (m0.nvars : Int) with
-    | none => rfl
-    | some x =>
-      have := (hlv _ (lookup_some_mem _ _ _ hl)).2.1
-      simp only at this
+  have hresv : resolveRename m0.tbl (l.map fun p => (Key.name p.1, Key.name p.2)) =
+      pairs.map fun p => (Key.lvl p.1, Key.lvl p.2) := by
+    rw [← hpairs]; exact resolveRename_lvlPairs hO l hpre.keys hpre.decl
+  have hne : pairs ≠ [] → 0 < m0.nvars := by
+    intro hne
+    cases hp : pairs with
+    | nil => exact absurd hp hne
+    | cons x _ =>
+      have h := hlv x (by rw [hp]; exact List.mem_cons_self)
       omega
-  have hP : ImgOKs none (some pairs) [] [] (qs.map (lvlOf m0.tbl)) id (renOf pairs)
-      (fun j => InSupp m0.tbl target j) m0.nvars :=
-    ⟨fun z hz _ => ⟨rfl, hz⟩,
-      fun j hj => ⟨renOf_eq pairs (fun p hp => (hlv p hp).2.2.1) j,
-        renOf_lt pairs m0.nvars (fun p hp => (hlv p hp).2.2.2) j (by rw [hnv]; exact hj.lt_nvars hW)⟩,
-      hterm, fun _ _ _ => rfl, fun _ _ => rfl⟩
-  have hmono : AdjN m0.tbl l → MonoOn (renOf pairs) (fun j => InSupp m0.tbl target j) := by
-    intro hadj
-    refine renOf_mono pairs _ (fun p hp => (hlv p hp).2.2.1) ?_ ?_ ?_
-    · intro x hx
-      obtain ⟨p, hp, rfl⟩ := hmem x hx
-      exact hadj p hp
-    · intro x x' hx hx' he
-      obtain ⟨p, hp, rfl⟩ := hmem x hx
-      obtain ⟨p', hp', rfl⟩ := hmem x' hx'
-      simp only at he
-      have h2 := lvlOf_inj hO (hpre.decl p hp).2 (hpre.decl p' hp').2 (by omega)
-      simp only
-      rw [hpre.injective p p' hp hp' h2]
-    · intro x hx j hj he
-      obtain ⟨p, hp, rfl⟩ := hmem x hx
-      simp only at he
-      have hdep : dependsOn m0.tbl target j := hj.dependsOn hI0.wf
-      have : lvlOf m0.tbl p.2 = j := by omega
-      rw [← this] at hdep
-      exact hpre.indep p hp ((dependsOnN_iff hW hO target hv _ (hpre.decl p hp).2).mpr hdep)
-  rcases (imageF_out none (some pairs) [] [] (qs.map (lvlOf m0.tbl)) fa id (renOf pairs)
-    (fun j => InSupp m0.tbl target j) m0.nvars (AdjN m0.tbl l) hP hmono (2 * m0.nvars + 4) m0 trans
-    target {} hI0 hq rfl hu hv (fun _ h => h) (IMemoC.empty _ _ _ _ _ _)
-    (by omega)).cases with
-    ⟨r, c, m1, he, hs, _, hp⟩ | ⟨m1, he, hs, ha⟩
-  rotate_left
-  · rw [he]
-    exact ⟨rfl, hs, ha⟩
-  rw [he]
-  refine ⟨hs, hp.mr, fun hadj1 σ => ?_⟩
-  have hadj : AdjN m0.tbl l := by
-    intro p hp
-    have := hadj1 p hp
-    unfold lvlOf at this ⊢
-    rw [hs.frame.vars] at this
-    exact this
-  have hl : m1.tbl.lift σ = m0.tbl.lift σ := by
-    unfold Tbl.lift Tbl.nameOf; rw [hs.frame.l2v]
+  have hov : ∀ p p', p ∈ pairs → p' ∈ pairs → p.2 ≠ p'.1 := by
+    intro x x' hx hx' he
+    obtain ⟨p, hp, rfl⟩ := hmem x hx
+    obtain ⟨p', hp', rfl⟩ := hmem x' hx'
+    simp only at he
+    exact hpre.noOverlap p p' hp hp'
+      (lvlOf_inj hO (hpre.decl p hp).2 (hpre.decl p' hp').1 (by omega))
   have hrlt : ∀ i, i < m0.tbl.nvars → renOf pairs i < m0.tbl.nvars := fun i hi =>
     renOf_lt pairs m0.nvars (fun p hp => (hlv p hp).2.2.2) i hi
   have hF : LowOnly m0.tbl (fun b => den m0.tbl trans b &&
@@ -638,21 +619,90 @@ theorem preimageBody_out (m0 : Mgr) (hI0 : Inv m0) (hq : Quiet m0) (hO : OrderOK
     rw [den_agree_ge m0.tbl hW trans hu b b' (fun i _ hi => hb i hi),
       den_agree_ge m0.tbl hW target hv (fun j => b (renOf pairs j)) (fun j => b' (renOf pairs j))
         (fun i _ hi => hb _ (hrlt i hi))]
-  unfold denN
-  rw [hp.den hadj, imgSem_ext hs.ext hW hu hv, hl]
-  unfold imgSem
-  refine (qsem_lift_gen hO hF fa qs hpre.qdecl σ).trans ?_
-  apply qsemN_congr
-  intro τ
-  show (den m0.tbl trans (m0.tbl.lift τ) &&
-      den m0.tbl target (fun j => m0.tbl.lift τ (renOf pairs j))) =
-    (denN m0.tbl trans τ && denN m0.tbl target (fun s => τ (renN l s)))
-  unfold denN
-  congr 1
-  apply den_agree_ge m0.tbl hW target hv
-  intro i _ hi
-  show τ (m0.tbl.nameOf (renOf pairs i)) = τ (renN l (m0.tbl.nameOf i))
-  rw [← hpairs, nameOf_renOf hO l hpre.decl hi]
+  -- the statement by level implies the statement by name
+  have hname : ∀ (r : Int) (m1 : Mgr), StepK m0 m1 → m1.tbl.Mem r →
+      (∀ a, den m1.tbl r a = true ↔ qsem fa (qs.map (lvlOf m0.tbl))
+        (fun b => den m0.tbl trans b && den m0.tbl target (fun j => b (renOf pairs j))) a) →
+      PreimageDoc fa qs l trans target m0.tbl r m1.tbl := by
+    intro r m1 hs hr hden
+    refine ⟨hr, fun σ => ?_⟩
+    have hl : m1.tbl.lift σ = m0.tbl.lift σ := by
+      unfold Tbl.lift Tbl.nameOf; rw [hs.frame.l2v]
+    unfold denN
+    rw [hden, hl]
+    refine (qsem_lift_gen hO hF fa qs hpre.qdecl σ).trans ?_
+    apply qsemN_congr
+    intro τ
+    show (den m0.tbl trans (m0.tbl.lift τ) &&
+        den m0.tbl target (fun j => m0.tbl.lift τ (renOf pairs j))) =
+      (denN m0.tbl trans τ && denN m0.tbl target (fun s => τ (renN l s)))
+    unfold denN
+    congr 1
+    apply den_agree_ge m0.tbl hW target hv
+    intro i _ hi
+    show τ (m0.tbl.nameOf (renOf pairs i)) = τ (renN l (m0.tbl.nameOf i))
+    rw [← hpairs, nameOf_renOf hO l hpre.decl hi]
+  by_cases hadj : ∀ p, p ∈ pairs → (p.1 - p.2).natAbs = 1
+  · -- partners neighbours: the recursion `_image`
+    rw [preimageBody_eq_imageF m0 hV trans target _ _ fa (qs.map (lvlOf m0.tbl))
+      (mapToLevelE_names m0.tbl qs hpre.qdecl) pairs hresv hne hov hadj]
+    have hterm : (pairs.lookup (m0.nvars : Int)).getD (m0.nvars : Int) = (m0.nvars : Int) := by
+      cases hl : pairs.lookup (m0.nvars : Int) with
+      | none => rfl
+      | some x =>
+        have := (hlv _ (lookup_some_mem _ _ _ hl)).2.1
+        simp only at this
+        omega
+    have hP : ImgOKs none (some pairs) [] [] (qs.map (lvlOf m0.tbl)) id (renOf pairs)
+        (fun j => InSupp m0.tbl target j) m0.nvars :=
+      ⟨fun z hz _ => ⟨rfl, hz⟩,
+        fun j hj => ⟨renOf_eq pairs (fun p hp => (hlv p hp).2.2.1) j,
+          hrlt j (hj.lt_nvars hW)⟩,
+        hterm, fun _ _ _ => rfl, fun _ _ => rfl⟩
+    have hmono : True → MonoOn (renOf pairs) (fun j => InSupp m0.tbl target j) := by
+      intro _
+      refine renOf_mono pairs _ (fun p hp => (hlv p hp).2.2.1) hadj ?_ ?_
+      · intro x x' hx hx' he
+        obtain ⟨p, hp, rfl⟩ := hmem x hx
+        obtain ⟨p', hp', rfl⟩ := hmem x' hx'
+        simp only at he
+        have h2 := lvlOf_inj hO (hpre.decl p hp).2 (hpre.decl p' hp').2 (by omega)
+        simp only
+        rw [hpre.injective p p' hp hp' h2]
+      · intro x hx j hj he
+        obtain ⟨p, hp, rfl⟩ := hmem x hx
+        simp only at he
+        have hdep : dependsOn m0.tbl target j := hj.dependsOn hI0.wf
+        have : lvlOf m0.tbl p.2 = j := by omega
+        rw [← this] at hdep
+        exact hpre.indep p hp ((dependsOnN_iff hW hO target hv _ (hpre.decl p hp).2).mpr hdep)
+    rcases (imageF_out none (some pairs) [] [] (qs.map (lvlOf m0.tbl)) fa id (renOf pairs)
+      (fun j => InSupp m0.tbl target j) m0.nvars True hP hmono (2 * m0.nvars + 4) m0 trans
+      target {} hI0 hq rfl hu hv (fun _ h => h) (IMemoC.empty _ _ _ _ _ _)
+      (by omega)).cases with
+      ⟨r, c, m1, he, hs, _, hp⟩ | ⟨m1, he, hs, ha⟩
+    rotate_left
+    · rw [he]
+      exact ⟨rfl, hs, ha⟩
+    rw [he]
+    refine ⟨hs, hname r m1 hs hp.mr ?_⟩
+    intro a
+    rw [hp.den trivial, imgSem_ext hs.ext hW hu hv]
+    exact Iff.rfl
+  · -- some partners are not neighbours: rename, conjoin, quantify
+    rw [preimageBody_eq_fallback m0 hV trans target _ _ fa (qs.map (lvlOf m0.tbl))
+      (mapToLevelE_names m0.tbl qs hpre.qdecl) pairs hresv hne hov hadj]
+    have hout := preimageFallback_out m0 hI0 hc trans target hu hv fa
+      (pairs.map fun p => (Key.lvl p.1, Key.lvl p.2)) (qs.map (lvlOf m0.tbl))
+      (badKeys_map_lvl pairs) (by rw [intPairs_map_lvl]; exact hlv)
+      (by
+        intro i hi
+        obtain ⟨s, hs, rfl⟩ := List.mem_map.mp hi
+        obtain ⟨j, hj⟩ := (vars_contains_iff _ _).mp (hpre.qdecl s hs)
+        rw [lvlOf_eq hj, TreeMap.contains_eq_isSome_getElem?, (hO.inv s j).mp hj]
+        rfl)
+    rw [intPairs_map_lvl] at hout
+    exact hout.mono (fun r m1 hs hp => hname r m1 hs hp.1 hp.2)
 
 theorem PreimagePreN.bridge {trans target : Int} {l : List (String × String)} {qs : List String}
     {t t' : Tbl} (hB : Bridge [trans, target] t t') (h : PreimagePreN target l qs t) :
@@ -674,10 +724,8 @@ theorem preimage_names_eq {t : Tbl} (m : Mgr) (hm : m.tbl = t) (hO : OrderOK t) 
   rw [qvarsByName_names hO qs hqd, renameByName_names hO l hkeys hd]
 
 /-- C09 for `preimage`: operands held by the user, renaming and quantified variables given by
-declared names.  Whether or not a reordering request is served, the call returns normally with
-the frame of every decorated operation; the result is the documented preimage relative to the
-operands as they were PROVIDED the partners are neighbours in the order the manager is left in
-(the order of the call when no request was served, the order chosen by sifting otherwise). -/
+declared names.  Whether or not a reordering request is served, and whatever sifting does to the
+partners, the result is the documented preimage relative to the operands as they were. -/
 theorem preimage_transparent (ext : Nat → Nat) (hS : SiftContract ext) (m : Mgr)
     (hD : DynInv ext m) (trans target : Int) (ht : HeldX ext trans) (hs : HeldX ext target)
     (fa : Bool) (l : List (String × String)) (qs : List String)
@@ -688,13 +736,13 @@ theorem preimage_transparent (ext : Nat → Nat) (hS : SiftContract ext) (m : Mg
   refine tryToReorder_transparent ext hS _ [trans, target] (PreimagePreN target l qs)
     (PreimageDoc fa qs l trans target) ?_ ?_ ?_ m hD ?_ hpre
   · intro m0 hI0 hc hO hp hmem
-    exact preimageBody_out m0 hI0 (Or.inl hc) hO trans target (hmem trans (by simp))
+    exact preimageBody_out m0 hI0 hc hO trans target (hmem trans (by simp))
       (hmem target (by simp)) fa l qs hp
   · intro t t' hB hp
     exact hp.bridge hB
   · intro t t' r t'' hB _ hdoc
-    refine ⟨hdoc.1, fun hadj σ => ?_⟩
-    rw [hdoc.2 hadj σ]
+    refine ⟨hdoc.1, fun σ => ?_⟩
+    rw [hdoc.2 σ]
     apply qsemN_congr
     intro τ
     rw [(hB.ops trans (by simp)).2 τ, (hB.ops target (by simp)).2]
